@@ -668,6 +668,23 @@ func (c *Ctx) genC11() {
 			}
 			c.xdecrypt(xKey{kind: "b", bytes: key}, []xLayer{{alg: sp(d.uri), cipher: "v", ct: ct}}, nil, "lengths:"+d.name)
 		}
+		// every value of the final padding byte, for 1 and 2 body blocks (IV chosen so the last plaintext byte is v)
+		if d.uri != uriGCM {
+			key := c.randBytes(d.bc.KeySize())
+			if blk := refBlock(key, d.bs); blk != nil {
+				for nb := 1; nb <= 2; nb++ {
+					for v := 0; v < 256; v++ {
+						ct := c.randBytes((nb + 1) * d.bs)
+						last := ct[nb*d.bs:]
+						dec := make([]byte, d.bs)
+						blk.Decrypt(dec, last)
+						prev := ct[(nb-1)*d.bs : nb*d.bs]
+						prev[d.bs-1] = dec[d.bs-1] ^ byte(v)
+						c.xdecrypt(xKey{kind: "b", bytes: key}, []xLayer{{alg: sp(d.uri), cipher: "v", ct: ct}}, nil, "padbyte:"+d.name)
+					}
+				}
+			}
+		}
 		// wrong key sizes and types
 		for _, ks := range []int{0, 1, 8, 15, 16, 17, 24, 32, 33} {
 			c.xdecrypt(xKey{kind: "b", bytes: c.randBytes(ks)}, []xLayer{{alg: sp(d.uri), cipher: "v", ct: c.randBytes(3 * d.bs)}}, nil, "keysize:"+d.name)
